@@ -391,7 +391,7 @@ class C10Full(core.PropBase):
                             "preprocess with the PATH rules of the mode) = implementation correspondence")
     assumptions = [
         "the model receives ONLY the raw documents, the value map, the two directory strings, the walk-up flag and the mode",
-        "values supplied for INT / FLOAT parameters stay in the numeral domain of Numerals.v (no non-ASCII decimal digit, exponent text <= 3 digits); calls with other values are judged by the implementation alone and counted (domain:numeral-domain)",
+        "values supplied for INT / FLOAT parameters stay in the numeral domain of Numerals.v (every Unicode decimal digit is read as Python reads it; exponent text <= 3 digits); calls with other values are judged by the implementation alone and counted (domain:numeral-domain)",
         "a negative-zero Decimal default is outside NumPrint.v's domain (such templates are judged by the implementation alone and counted)",
         "a template the DECODE model declares outside its domain (RuntimeError of the structural pydantic model) is judged by the implementation alone and counted; a template the decoder rejects is skipped and counted",
         "POSIX flavour only; a pathlib Path argument is one raw string (Path(s)); Path() == Path('')",
